@@ -446,6 +446,11 @@ where
         let mut shift = -&jac_inv * &derivative;
         guess += &shift;
 
+        // Already converged (e.g. a solution at rest): the rank-one update below would divide by zero
+        if shift.norm() <= self.tolerance.real() {
+            return Ok(guess);
+        }
+
         while n < 1000 {
             let derivative_last = derivative;
             derivative = g(
